@@ -273,6 +273,33 @@ func checkC01(c *Ctx) (int, error) {
 		cs.Ops = []Op{{Op: "W", N: n}, {Op: "C"}}
 		cases = append(cases, cs)
 	}
+	// a block of exactly as many tokens as the token buffer holds (32767 literals of incompressible
+	// data, give or take a few), followed by a repetition much longer than one copy can express:
+	// the copy that fills the buffer, and the ones after it, belong to different blocks
+	for d := -4; d <= 4; d++ {
+		for vi, rep := range []int{259, 600, 1500} {
+			set := accelSettings[((d+4)*3+vi)%len(accelSettings)]
+			if set.Level == -2 {
+				set = accelSettings[1]
+			}
+			n := 32767 + d
+			cs := &WCase{ID: fmt.Sprintf("C01-tokfull-%d-%d", d+4, vi), Set: set, Tag: settingTag(set) + "|tokens-full+long-match",
+				Data: DataSpec{Class: "uniform+repeat", Seed: rng.Int63n(1 << 30), Len: n + rep + 50, Period: n},
+				Ops:  []Op{{Op: "W", N: n + rep + 50}, {Op: "C"}}}
+			cases = append(cases, cs)
+		}
+	}
+	// deep distance trees
+	for i := 0; i < 24; i++ {
+		set := accelSettings[i%len(accelSettings)]
+		if set.Level == -2 {
+			set = accelSettings[2+(i/4)%2]
+		}
+		n := 60000 + rng.Intn(200000)
+		cs := &WCase{ID: fmt.Sprintf("C01-deepdist-%d", i), Set: set, Tag: settingTag(set) + "|deepdist",
+			Data: DataSpec{Class: "deepdist", Seed: rng.Int63n(1 << 30), Len: n}, Ops: []Op{{Op: "W", N: n}, {Op: "C"}}}
+		cases = append(cases, cs)
+	}
 	// size sweeps around the points where the compressed output fills an 8 KiB output piece, and
 	// short inputs with exactly one match at the very end
 	sweep := 1
